@@ -33,7 +33,7 @@ from aw_transform import (
     union_no_overlap,
 )
 
-from .exceptions import QueryFunctionException
+from .exceptions import QueryFunctionException, QueryInterpretException
 
 
 def _verify_bucket_exists(datastore, bucketname):
@@ -112,6 +112,10 @@ def q2_typecheck(f):
                 param.annotation in [list, str, int, float]
                 and param.default == param.empty
             ):
+                if i >= len(args):
+                    raise QueryInterpretException(
+                        f"Tried to call function {f.__name__} with invalid amount of arguments"
+                    )
                 _verify_variable_is_type(args[i], param.annotation)
 
         return f(*args, **kwargs)
